@@ -788,6 +788,88 @@ def means_props(ctx, rounds):
 
 
 
+def int_dtype_props(ctx, rounds):
+    """integer storage dtypes (uint8 / uint16 / int64; minimum 0 and maximum 255 included) for fcst or obs (at most one unsigned operand:
+    `fcst - obs` on two unsigned arrays wraps by numpy semantics everywhere in the library), the other float64 or int64; rectangular and
+    trapezoidal weights with finite, -inf / +inf, scalar and per-dimension end points: the scores are those of the same VALUES in float64
+    (exact oracle).  The stand-ins for infinite end points must not be computed in the storage dtype (0 - 1 wraps for unsigned data)."""
+    rng = ctx.rng
+    for _ in range(rounds):
+        if not ctx.time_left():
+            break
+        n = rng.randint(1, 4)
+        dt = rng.choice(["uint8", "uint8", "uint16", "int64"])
+        big = rng.random() < 0.3
+        hi_v = {"uint8": 255, "uint16": 300, "int64": 40}[dt] if big else 12
+        iv = [rng.randint(0 if dt != "int64" else -6, hi_v) for _ in range(n)]
+        if rng.random() < 0.6:
+            iv[rng.randrange(n)] = 0
+        if big and dt == "uint8" and rng.random() < 0.5:
+            iv[rng.randrange(n)] = 255
+        other_int = rng.random() < 0.25
+        xv = [Fr(rng.randint(-4, 24), 1) if other_int else Fr(rng.randint(-8, 48), 2) for _ in range(n)]
+        int_is_obs = rng.random() < 0.6
+        I = xr.DataArray(np.array(iv, dtype=dt), dims=["x"])
+        X = xr.DataArray(np.array([int(v) for v in xv], dtype="int64") if other_int else [float(v) for v in xv], dims=["x"])
+        F, O = (X, I) if int_is_obs else (I, X)
+        fv, ov = ([Fr(v) for v in xv], [Fr(v) for v in iv]) if int_is_obs else ([Fr(v) for v in iv], [Fr(v) for v in xv])
+        trap = rng.random() < 0.6
+        inf_l, inf_r = rng.random() < 0.5, rng.random() < 0.4
+        lo = Fr(rng.randint(-4, 10), 2)
+        hi = lo + Fr(rng.randint(1, 30), 2)
+        allv = fv + ov
+        far_lo, far_hi = min(allv) - 50, max(allv) + 50
+        bb, cc = (far_lo if inf_l else lo), (far_hi if inf_r else hi)
+        ends = (bb, cc) if not trap else ((far_lo - 1 if inf_l else lo - 1), bb, cc, (far_hi + 1 if inf_r else hi + Fr(3, 2)))
+        arrays = rng.random() < 0.4
+
+        def ep(v):
+            return xr.DataArray([v] * n, dims=["x"]) if arrays else v
+        one = (ep(-INF if inf_l else float(lo)), ep(INF if inf_r else float(hi)))
+        pos = (ep(-INF if inf_l else float(lo - 1)), ep(INF if inf_r else float(hi + Fr(3, 2)))) if trap else None
+        alpha, hub = rng.choice(ALPHAS), rng.choice(HUBERS)
+        ctx.count("int_dtype:" + dt + (":trap" if trap else ":rect"))
+        for k, fn in enumerate(FNS):
+            p = {"tw_quantile_score": alpha, "tw_expectile_score": alpha, "tw_huber_loss": hub}.get(fn)
+            st, v = call_tw(fn, F, O, p, one, pos, pd="all")
+            case = {"fn": fn, "param": p, "fcst": [str(x) for x in fv], "fcst_dtype": str(F.dtype), "obs": [str(x) for x in ov], "obs_dtype": str(O.dtype),
+                    "interval_where_one": ["-inf" if inf_l else lo, "inf" if inf_r else hi],
+                    "interval_where_positive": None if not trap else ["-inf" if inf_l else lo - 1, "inf" if inf_r else hi + Fr(3, 2)], "end_points_as": "arrays" if arrays else "scalars"}
+            ctx.case(("intdtype", fn, repr(case)))
+            want = [orc_tw(ends, alpha, hub, fv[i], ov[i])[k] for i in range(n)]
+            got = None if st != "ok" else [float(x) for x in np.asarray(v.values, dtype=float).ravel()]
+            if got is None or not all(core.close(g, w) for g, w in zip(got, want)):
+                ctx.violation("tw_* on integer-typed data differs from the score of the same values in float64", case, [str(w) for w in want],
+                              got if got is not None else v)
+                break
+        ctx.count("int_dtype_rounds")
+
+
+
+def int_dtype_corpus(ctx):
+    """repaired defect ff792f5: trapezoidal weights on unsigned / narrow integer data (stand-ins for infinite end points and 2*x**2 were
+    computed in the storage dtype)"""
+    C = S()
+    f = xr.DataArray([1.0, 3.0, 2.0], dims=["x"])
+    cases = [("uint8", [0, 2, 5], (-INF, 4.0), (-INF, 6.0)), ("uint16", [0, 2, 5], (-INF, 4.0), (-INF, 6.0)), ("uint8", [255, 2, 0], (1.0, INF), (0.0, INF)),
+             ("uint8", [20, 3, 0], (1.0, 30.0), (0.0, 31.0)), ("uint8", [0, 2, 5], (xr.DataArray([-INF] * 3, dims=["x"]), xr.DataArray([4.0] * 3, dims=["x"])),
+                                                                  (xr.DataArray([-INF] * 3, dims=["x"]), xr.DataArray([6.0] * 3, dims=["x"])))]
+    for dt, vals, one, pos in cases:
+        o = xr.DataArray(np.array(vals, dtype=dt), dims=["x"])
+        for name, args in (("tw_squared_error", ()), ("tw_absolute_error", ()), ("tw_quantile_score", (0.25,)), ("tw_expectile_score", (0.25,)), ("tw_huber_loss", (1.0,))):
+            fn = getattr(C, name)
+            for ff, oo in ((f, o), (o, f)):
+                want = core.call_impl(fn, ff.astype(float), oo.astype(float), *args, one, interval_where_positive=pos, preserve_dims="all")
+                got = core.call_impl(fn, ff, oo, *args, one, interval_where_positive=pos, preserve_dims="all")
+                ctx.case(("int-dtype-corpus", dt, repr(vals), name, ff is f))
+                if not (want[0] == got[0] == "ok" and np.allclose(want[1].values, got[1].values, rtol=1e-12, atol=1e-12)):
+                    ctx.violation(f"{name} (trapezoidal) depends on the integer storage dtype of the data (regression of ff792f5)",
+                                  {"fn": name, "dtype": dt, "values": vals, "integer_operand": "obs" if ff is f else "fcst", "other": f.values.tolist(),
+                                   "interval_where_one": [gens.da_repr(e) for e in one], "interval_where_positive": [gens.da_repr(e) for e in pos]},
+                                  str(want[1].values.tolist() if want[0] == "ok" else want[1]), str(got[1].values.tolist() if got[0] == "ok" else got[1]))
+
+
+
 def coord_order_finding(ctx):
     """corpus of repaired defects (5f9b684, 471de49, aeac0ee, 7c177ef): results must not depend on the storage order of a shared coordinate, and
     an end-point pair may mix arrays and Python scalars; a regression is a violation"""
@@ -869,6 +951,8 @@ def run_without_model(ctx):
     replacement_props(ctx, ctx.n(6, 80))
     perdim_props(ctx, ctx.n(25, 400))
     means_props(ctx, ctx.n(25, 400))
+    int_dtype_corpus(ctx)
+    int_dtype_props(ctx, ctx.n(40, 600))
     integral_props(ctx, ctx.n(25, 400))
     pointwise_props(ctx, ctx.n(3, 40), use_model=False)
 
@@ -886,6 +970,8 @@ def run(ctx):
     replacement_props(ctx, ctx.n(6, 80))
     perdim_props(ctx, ctx.n(25, 400))
     means_props(ctx, ctx.n(25, 400))
+    int_dtype_corpus(ctx)
+    int_dtype_props(ctx, ctx.n(40, 600))
     integral_props(ctx, ctx.n(25, 400))
     # ---- public functions vs model, structured random cases ----
     for i in range(ctx.n(260, 4000)):
